@@ -295,6 +295,14 @@ SEEDS9 = {
     "C20-14": ("C20", ["C20", "C03"], "Update returns ctx.Err() up front - above the known-log lookup and the attempt counter", "an update naming a known log whose context is already cancelled or past its deadline"),
     "C16-13": ("C16", ["C16", "C04"], "(as C16-2, written independently) witness read cache refreshed by the store() helper of two of the three write paths; the size-0 resubmission path keeps its inline Set", "a log held at size 0, a second accepted size-0 update with different cosigned bytes, then a GET"),
     "C16-14": ("C16", ["C16"], "bundled client reads response bodies through io.LimitReader(64 KiB) without noticing the cut", "a stored cosigned checkpoint larger than 65536 bytes"),
+    "C19-13": ("C19", ["C19", "C10"], "bastion handler: the 404 branch labels the bastion_response counter with the client-supplied first checkpoint line instead of \"unknown\"", "the repository's Prometheus binding installed (as with -metrics_listen) and a well-formed request for an unconfigured origin that is not valid UTF-8: CounterVec.With panics, the request goes unanswered"),
+    "C19-14": ("C19", ["C19"], "rekor feeder: proof hashes decoded with hex.Decode into 32-byte windows of one buffer", "rekor feeder with a witnessed checkpoint and a log-signed larger one whose proof JSON has a hash element longer than 64 hex characters: index out of range, nothing recovers"),
+    "C11-13": ("C11", ["C11"], "(as C11-1, written independently) parseBody collects ReadLine slices and decodes after the blank line", "short reads or more than 4096 bytes of proof lines"),
+    "C11-14": ("C11", ["C11"], "Proof.Unmarshal reuses the receiver's storage without re-slicing to the new length", "Unmarshal into a Proof value that already holds a longer list"),
+    "C12-13": ("C12", ["C12", "C02"], "(as C02-12/C04-12, written independently) verified-checkpoint cache keyed by sha256 of the raw note only", "a checkpoint accepted under A, then the same bytes (or the cosigned ones) under B's ID while B holds nothing"),
+    "C12-14": ("C12", ["C12", "C17"], "config.NewLog trims origin, key and URL before deriving the ID; AsLogMap and the bastion handler do not", "a configured origin with leading or trailing white space"),
+    "C14-13": ("C14", ["C14", "C18"], "sumdb feeder: tileReader kept per FeedLog with a SaveTiles cache keyed by (tile height, index) - the level is not in the key", "one feeder lifetime: a proof reading the complete level-0 tile 0 (e.g. 255->256), then one reading the complete level-1 tile 0 (->65536)"),
+    "C14-14": ("C14", ["C14", "C04", "C08"], "witness.signChkpt drops signers whose (name, key hash) already appears on the incoming note", "a log-signed checkpoint carrying a line with exactly the witness's key name and hash that is not valid for this body (e.g. a republished old cosignature)"),
 }
 SEEDS2.update(SEEDS9)
 ROUND9 = {'C01', 'C02', 'C03', 'C04', 'C05', 'C07', 'C08', 'C09', 'C10', 'C13', 'C15', 'C18'}
